@@ -60,6 +60,26 @@ CHECKS["C02"] = dict(
     technique="Coq refinement proof (loop vs per-byte automaton) + model/implementation correspondence",
 )
 
+CHECKS["C03"] = dict(
+    category="proof",
+    text=("Coq theorems over a transliteration of the frame classes, parse_frame, stuffing and _write_frame with constants regenerated "
+          "from the module: parse(encode f) = f for every class, field value, reset code and payload of 0..256 bytes; classification of "
+          "all 256 control bytes; stuffed output free of reserved bytes; unstuff inverse of stuff; randomisation = the specified LFSR and "
+          "involutive; and, for frames up to 4095 bytes, EVERY 1- or 2-bit corruption fails the CRC check (CRC linearity + orbit of x modulo "
+          "the generator swept by vm_compute). Tied to the code by correspondence incl. binascii.crc_hqx vs the bitwise CRC."),
+    design_ref="DESIGN.md section 6 C03",
+    technique="Coq proof (round trip, finite sweeps, CRC algebra) + model/implementation correspondence",
+)
+CHECKS["C16"] = dict(
+    category="proof",
+    text=("Coq theorems generic in the default table (instantiated on the tables regenerated from the module for all 11 versions): each "
+          "setting written at most once, user values exact, disabled settings silent, grow-only settings never lowered when bellows' own "
+          "defaults (table or schema default) apply, packet-buffer count last, defaults written independently of answers. Tied to the real "
+          "EZSP.write_config by correspondence over versions x current values x override sets x answers."),
+    design_ref="DESIGN.md section 6 C16",
+    technique="Coq proof over translator-generated tables + model/implementation correspondence",
+)
+
 NOT_YET = {}
 
 
